@@ -119,6 +119,7 @@ func c08Setup(g *rng, nLoggers int) *c08env {
 	e.sortedG = gattr{key: "ord", isGroup: true, val: gval{kind: "group", items: []gattr{
 		{key: "a", val: gval{kind: "int", goVal: 1, tok: "I:1"}},
 		{key: "b", val: gval{kind: "string", goVal: "bee", tok: "S:" + hxs("bee"), text: "bee"}},
+		{key: "b", val: gval{kind: "int", goVal: 2, tok: "I:2"}}, // in key order, but one key twice: the list is still only read
 		{key: "c", val: gval{kind: "bool", goVal: false, tok: "B:0"}},
 	}}}
 	e.sorted = toAttrs([]gattr{e.sortedG})[0]
